@@ -51,6 +51,157 @@ def kmip_errors(src):
     return out
 
 
+
+def check_optional_deref(ctx, m):
+    """C13.R3: a structure field that its decoder treats as optional (or version-conditional) may be None; dereferencing it in a handler needs a guard."""
+    from ..ttlv import Schema, VERSIONS
+    from ..index import Index
+    from ..cfg import CFG
+    from ..dataflow import ReachingDefs, node_of_expr
+    from ..guards import dominating_edges, is_none_test
+    src = ctx.src
+    sch = Schema(src)
+    ctx.rule('C13.R3', 'in engine handlers, an attribute access on a payload/structure field that the decoder treats as optional is dominated by a None/truthiness test of that field')
+    schemas = {}
+
+    def schema_of(ref):
+        if ref in schemas:
+            return schemas[ref]
+        schemas[ref] = {}
+        cn = sch.ix.class_node(ref)
+        own = {n.name: n for n in cn.body if isinstance(n, ast.FunctionDef)}
+        if 'read' not in own:
+            for b in sch.ix.bases(ref):
+                schemas[ref] = schema_of(b)
+                return schemas[ref]
+            return {}
+        R = sch.extract(ref, own['read'], 'read')
+        out = {}
+        from ..ttlv import eval_guard
+        for e in R.events:
+            d = out.setdefault(e['ident'], {'kinds': {}, 'cls': e['cls'], 'rep': False})
+            for v in VERSIONS:
+                if R.defined_under(v) and eval_guard(e['guards'], v):
+                    prev = d['kinds'].get(v)
+                    d['kinds'][v] = e['kind'] if prev is None or e['kind'] == 'opt' else prev
+            if e['kind'] == 'rep':
+                d['rep'] = True
+            if d['cls'] is None:
+                d['cls'] = e['cls']
+        # does the property getter return the wrapper object or its raw .value ?
+        for ident, d in out.items():
+            getter = None
+            for k in sch.ix.mro(ref):
+                for f in sch.ix.class_node(k).body:
+                    if isinstance(f, ast.FunctionDef) and f.name == ident and any((dotted(x) or '') == 'property' for x in f.decorator_list):
+                        getter = getter or f
+            d['raw'] = False
+            if getter is not None:
+                rets = [r for r in ast.walk(getter) if isinstance(r, ast.Return) and r.value is not None]
+                if any(isinstance(r.value, ast.Attribute) and r.value.attr == 'value' for r in rets):
+                    d['raw'] = True
+        schemas[ref] = out
+        return out
+    # operation -> request payload class
+    reqf = src.tree('kmip/core/factories/payloads/request.py')
+    fac = [x for x in reqf.body if isinstance(x, ast.ClassDef)][0]
+    op_cls = {}
+    for name, fn in methods(fac).items():
+        if name.startswith('_create_'):
+            rets = [r for r in walk_local(fn) if isinstance(r, ast.Return) and isinstance(r.value, ast.Call)]
+            if rets:
+                ref = sch.ix.resolve_class('kmip/core/factories/payloads/request.py', rets[0].value.func)
+                if ref:
+                    op_cls[name[8:-8].upper()] = ref
+    hop = m.handler_op()
+    n_deref = 0
+    for h, op in sorted(hop.items()):
+        ref = op_cls.get(op)
+        if ref is None:
+            continue
+        fn = m.method(h)
+        g = CFG(fn)
+        rd = ReachingDefs(g)
+        pname = [a.arg for a in fn.args.args][1]
+
+        gate = m.version_gate(fn) or '1.0'
+        from ..polmodel import fold_version
+
+        def versions_at(node):
+            vs = [v for v in VERSIONS if tuple(int(x) for x in v.split('_')[1:]) >= tuple(int(x) for x in gate.split('.'))]
+            for tt, lab in dominating_edges(g, node):
+                c = tt.stmt
+                if isinstance(c, ast.Compare) and len(c.ops) == 1 and is_self_attr(c.left, '_protocol_version') and isinstance(c.comparators[0], ast.Call):
+                    try:
+                        b = fold_version(c.comparators[0])
+                    except AnalysisError:
+                        continue
+                    opn = type(c.ops[0]).__name__
+
+                    def holds(v):
+                        t = tuple(int(x) for x in v.split('_')[1:])
+                        return {'GtE': t >= b, 'Gt': t > b, 'Lt': t < b, 'LtE': t <= b, 'Eq': t == b, 'NotEq': t != b}[opn]
+                    vs = [v for v in vs if holds(v) == (lab == 'T')]
+            return vs
+
+        def type_of(e, node, depth=0):
+            """-> (class ref or None, nullable, origin text)"""
+            if depth > 6:
+                return None
+            if isinstance(e, ast.Name):
+                if e.id == pname:
+                    return (ref, False, pname)
+                defs = rd.reaching(node, e.id)
+                if len(defs) == 1 and isinstance(defs[0][1], ast.AST) and defs[0][2] is not None:
+                    t = type_of(defs[0][1], defs[0][2], depth + 1)
+                    return t
+                return None
+            if isinstance(e, ast.Attribute):
+                bt = type_of(e.value, node, depth + 1)
+                if bt is None or bt[0] is None:
+                    return None
+                sc = schema_of(bt[0])
+                d = sc.get(e.attr)
+                if d is None:
+                    return None
+                vs = versions_at(node)
+                nullable = any(d['kinds'].get(v) in (None, 'opt') for v in vs)
+                if d['raw'] or d['rep']:
+                    return (None, nullable, U(e))
+                return (d['cls'], nullable, U(e))
+            return None
+        for n in g.nodes:
+            from ..cfg import expr_nodes
+            for ex in expr_nodes(n):
+                for x in ast.walk(ex):
+                    if not (isinstance(x, ast.Attribute) and isinstance(x.ctx, ast.Load)):
+                        continue
+                    base = x.value
+                    t = type_of(base, n)
+                    if t is None or not t[1] or t[0] is None:
+                        continue
+                    # x reads a field of a nullable structure-valued expression
+                    n_deref += 1
+                    texts = {U(base)}
+                    if isinstance(base, ast.Name):
+                        for dv in rd.values(n, base.id):
+                            if isinstance(dv, ast.AST):
+                                texts.add(U(dv))
+                    guarded = False
+                    for tt, lab in dominating_edges(g, n):
+                        nt = is_none_test(tt.stmt)
+                        if nt and U(nt[1]) in texts and ((nt[0] == 'isnot') == (lab == 'T')):
+                            guarded = True
+                        if U(tt.stmt) in texts and lab == 'T':
+                            guarded = True
+                    prot = any('*' in handler_catches(hh) or 'AttributeError' in handler_catches(hh) for tr in n.tries for hh in tr.handlers)
+                    site = '%s:%s KmipEngine.%s' % (ENGINE, x.lineno, h)
+                    ctx.check(guarded or prot, 'C13.R3', 'KmipEngine.%s|%s.%s' % (h, t[2], x.attr), site, '%s is tested before .%s is read' % (U(base), x.attr),
+                              '%s (decoded from %s, which the decoder treats as optional) may be None, but .%s is read without a None test: AttributeError -> General Failure'
+                              % (U(base), t[2], x.attr))
+    ctx.count('nullable_structure_dereferences', n_deref, 3)
+
+
 def run(ctx):
     src = ctx.src
     ai = EngineAI(src)
@@ -221,7 +372,7 @@ def run(ctx):
     ctx.check(not missing, 'C13.R4', 'enums.convert_attribute_tag_to_name|decodable-tags-named', 'kmip/core/enums.py attribute_name_tag_table',
               'every tag the by-tag factory decodes has a name (ValueError infeasible for decoded attributes)',
               'decodable attribute tags without a name entry (convert_attribute_tag_to_name raises ValueError -> General Failure): %s' % missing)
-    ctx.not_decided += ['implicit exceptions of third-party code for particular values (cryptography rejecting a nonce length, unpadding failure with a wrong key)',
-                        'C13.R3 (dereference of decoder-optional payload fields) is decided with the TTLV schema extractor']
+    check_optional_deref(ctx, m)
+    ctx.not_decided += ['implicit exceptions of third-party code for particular values (cryptography rejecting a nonce length, unpadding failure with a wrong key)']
     ctx.assumptions += ['requests reach the engine only through the decoders (wire-decoded provenance): field types are those the decoders construct',
                         'TypeError raises in pie validate() are infeasible for decoder-typed values; ValueError raises depend on values and are feasible']
